@@ -92,15 +92,22 @@ func HashString(s string) uint64 {
 	return f.Sum64()
 }
 
+func unsb(s, sandbox string) string {
+	if sandbox == "" {
+		return s
+	}
+	return strings.ReplaceAll(s, sandbox, "$SB")
+}
+
 // EventsHash folds the run's event log into the hasher, replacing the sandbox
 // root by a placeholder.
 func EventsHash(h *Hasher, s *simrt.Sim, sandbox string) {
 	for _, e := range s.Events {
 		h.Int(int64(e.Task))
 		h.Str(e.Kind)
-		h.Str(strings.ReplaceAll(e.Obj, sandbox, "$SB"))
+		h.Str(unsb(e.Obj, sandbox))
 		h.Int(e.N)
-		h.Str(strings.ReplaceAll(e.Data, sandbox, "$SB"))
+		h.Str(unsb(e.Data, sandbox))
 	}
 	for _, c := range s.Choices() {
 		h.Int(int64(c))
@@ -192,12 +199,12 @@ func TraceOf(s *simrt.Sim, sandbox string) []string {
 	out = append(out, "choices (non-zero):"+sb.String())
 	n := 0
 	for _, e := range s.Events {
-		line := fmt.Sprintf("#%d t%d %s %s", e.Seq, e.Task, e.Kind, strings.ReplaceAll(e.Obj, sandbox, "$SB"))
+		line := fmt.Sprintf("#%d t%d %s %s", e.Seq, e.Task, e.Kind, unsb(e.Obj, sandbox))
 		if e.N != 0 {
 			line += fmt.Sprintf(" n=%d", e.N)
 		}
 		if e.Data != "" {
-			d := strings.ReplaceAll(e.Data, sandbox, "$SB")
+			d := unsb(e.Data, sandbox)
 			if len(d) > 300 {
 				d = d[:300] + "..."
 			}
